@@ -496,6 +496,11 @@ pub struct CaseR {
     pub ops: Vec<OpR>,
     pub tokio_seed: u64,
     pub choices: Vec<u8>,
+    /// C07 on a transactional listener session: the session's incoming-window is small, so it re-advertises its
+    /// window every few frames, and every flow it writes must report next-incoming-id = the peer's initial
+    /// next-outgoing-id + the transfer frames the peer has sent (0 = off)
+    #[serde(default)]
+    pub window_probe: u32,
 }
 
 fn which() -> BoxedStrategy<Which> {
@@ -519,7 +524,7 @@ pub fn case_r_strategy() -> BoxedStrategy<CaseR> {
     (vec(op, 1..24), any::<u64>(), vec(any::<u8>(), 0..5))
         .prop_map(|(mut ops, tokio_seed, choices)| {
             ops.insert(0, OpR::Declare);
-            CaseR { ops, tokio_seed, choices }
+            CaseR { ops, tokio_seed, choices, window_probe: 0 }
         })
         .boxed()
 }
@@ -570,13 +575,18 @@ pub struct InfoR {
 
 pub async fn run_resource(c: &CaseR) -> Result<InfoR, String> {
     let mut info = InfoR::default();
-    let (a, b, _ctl) = simnet::pipe(PipeCfg { cap: 1 << 22, ..PipeCfg::default() });
+    let (a, b, ctl) = simnet::pipe(PipeCfg { cap: 1 << 22, ..PipeCfg::default() });
+    let mut flows_seen = 0usize;
     let mut peer = Peer::new(b, c.choices.clone());
     let acc = ConnectionAcceptor::builder().container_id("verif-resource").max_frame_size(4096).buffer_size(64).build();
     let (conn, po) = tokio::join!(acc.accept(a), peer.client_open(Some(4096), None, None));
     po.map_err(|e| format!("HARNESS: {e}"))?;
     let mut conn = conn.map_err(|e| format!("HARNESS: accept: {e:?}"))?;
-    let sacc = SessionAcceptor::builder().control_link_acceptor(ControlLinkAcceptor::default()).buffer_size(64).build();
+    let sacc = if c.window_probe > 0 {
+        SessionAcceptor::builder().control_link_acceptor(ControlLinkAcceptor::default()).buffer_size(64).incoming_window(c.window_probe).build()
+    } else {
+        SessionAcceptor::builder().control_link_acceptor(ControlLinkAcceptor::default()).buffer_size(64).build()
+    };
     let my_ch = 2u16;
     let (ls, pb) = tokio::join!(sacc.accept(&mut conn), peer.initiate_begin(my_ch, 0, 100_000, 100_000));
     pb.map_err(|e| format!("HARNESS: {e}"))?;
@@ -651,6 +661,12 @@ pub async fn run_resource(c: &CaseR) -> Result<InfoR, String> {
         }
     };
     let mut session_over = false;
+    if c.window_probe > 0 {
+        // flows written during the attach phase (no transfer sent yet) are not part of the history
+        if let Ok((items, _)) = rframe::parse_stream(&ctl.bytes(0)) {
+            flows_seen = rframe::frames_of(&items).iter().filter(|f| f.ftype == 0 && f.name() == "flow").count();
+        }
+    }
     for (step, op) in c.ops.iter().enumerate() {
         if session_over {
             break;
@@ -823,6 +839,24 @@ pub async fn run_resource(c: &CaseR) -> Result<InfoR, String> {
                 peer.wait_for("attach").await.map_err(|e| format!("step {step}: a new control link attach was not answered: {e}"))?;
                 let _ = peer.new_frames().await;
                 control_attached = true;
+            }
+        }
+        if c.window_probe > 0 {
+            // C07: the session state reported in the endpoint's flows counts every transfer frame received
+            // (the peer's begin said next-outgoing-id 0 and it has sent `did` single-frame transfers)
+            if let Ok((items, _)) = rframe::parse_stream(&ctl.bytes(0)) {
+                let flows: Vec<RFrame> = rframe::frames_of(&items).into_iter().filter(|f| f.ftype == 0 && f.name() == "flow").collect();
+                for f in flows.iter().skip(flows_seen) {
+                    if as_uint(&f.field(0)) != Some(did) {
+                        return Err(format!(
+                            "C07: step {step} ({op:?}): the session's flow reports next-incoming-id {:?} although the peer started at 0 and has sent {did} transfer frames on this session ({} of them transactional posts); flow: {:?}",
+                            as_uint(&f.field(0)),
+                            next_idx,
+                            f.body
+                        ));
+                    }
+                }
+                flows_seen = flows.len();
             }
         }
     }
